@@ -34,7 +34,7 @@ def _name(rnd, i, odd):
     return base
 
 
-def gen_election(rnd, rule=None, small=False, flags=None, large=False):
+def gen_election(rnd, rule=None, small=False, flags=None, large=False, xlarge=False):
     """an abstract valid election.
 
     rule      : influences which features are offered (equal ranks for meek/warren,
@@ -50,7 +50,9 @@ def gen_election(rnd, rule=None, small=False, flags=None, large=False):
         return f[name]
 
     r = rnd.random()
-    if large:
+    if xlarge:
+        n = rnd.randint(20, 30)
+    elif large:
         n = rnd.randint(9, 14)
     elif small:
         n = rnd.choice((2, 3, 3, 4, 4, 5))
@@ -101,7 +103,7 @@ def gen_election(rnd, rule=None, small=False, flags=None, large=False):
     # ballots
     equal_ok = rule in ('meek', 'warren') and flag('equal', 0.3)
     tie_heavy = flag('tie_heavy', 0.3)
-    nlines = rnd.randint(12, 30) if large else rnd.randint(2, 8 if small else 14)
+    nlines = rnd.randint(40, 120) if xlarge else rnd.randint(12, 30) if large else rnd.randint(2, 8 if small else 14)
     pool = []
     if tie_heavy:
         for _ in range(rnd.randint(1, 3)):
@@ -353,11 +355,11 @@ def gen_options(rnd, rule=None, flags=None, n=4, slow_ok=False):
     return o
 
 
-def gen_case(rnd, rule=None, small=False, slow_ok=False, flags=None, large=False):
+def gen_case(rnd, rule=None, small=False, slow_ok=False, flags=None, large=False, xlarge=False):
     "(abstract election, options, blt text)"
     if rule is None:
         rule = rnd.choice(RULES)
-    e = gen_election(rnd, rule=rule, small=small, flags=flags, large=large)
+    e = gen_election(rnd, rule=rule, small=small, flags=flags, large=large, xlarge=xlarge)
     o = gen_options(rnd, rule=rule, flags=flags, n=e['n'], slow_ok=slow_ok)
     if o.get('arithmetic') == 'rational' and rule in ('meek', 'warren'):
         # keep rational Meek tiny: it is exponentially slow
